@@ -476,6 +476,17 @@ pub fn shape_catalogue(thorough: bool, pos: P2) -> Vec<Shape> {
             }
         }
     }
+    // flat and steep corners on wider shapes (radii far from square survive confinement only there)
+    for (w, h) in [(12u32, 5u32), (20, 7), (40, 6), (6, 21)] {
+        for r in [(4u32, 1u32), (5, 1), (6, 1), (16, 2), (1, 4), (2, 9)] {
+            v.push(Shape::rrect_eq(x, y, w, h, r));
+            let z = (0, 0);
+            v.push(Shape::RRect { x, y, w, h, tl: r, tr: z, br: z, bl: z });
+            v.push(Shape::RRect { x, y, w, h, tl: z, tr: r, br: z, bl: z });
+            v.push(Shape::RRect { x, y, w, h, tl: z, tr: z, br: r, bl: z });
+            v.push(Shape::RRect { x, y, w, h, tl: z, tr: z, br: z, bl: r });
+        }
+    }
     // lines: all pairs in [-3,3]^2 (relative to pos)
     for x0 in -3..=3 {
         for y0 in -3..=3 {
